@@ -495,6 +495,10 @@ where
                 return Err(Error::CommitNotFound(*commit).into());
             }
 
+            // Streamed backwards; return the records in log order
+            // so they can be re-applied to revert the rewind
+            records.reverse();
+
             (records, tree, new_len)
         };
 
